@@ -6,7 +6,7 @@
 # usage: tools/confirm_seeded.sh [id...]   (default: all)
 cd /verif
 OUT=$(mktemp -d /tmp/confirm-XXXX); trap 'rm -rf $OUT; git -C /repo checkout -q -- . ; git -C /repo clean -fdq' EXIT
-ids="$@"; [ -z "$ids" ] && ids=$(ls seeded)
+ids="$@"; [ -z "$ids" ] && ids=$(cd seeded && ls -d */ | tr -d /)
 [ -n "$(git -C /repo status --porcelain)" ] && { echo "/repo is not clean"; exit 2; }
 for id in $ids; do
   d=seeded/$id
